@@ -316,7 +316,7 @@ impl Property for C10 {
         ]
     }
     fn cases(&self, tier: Tier) -> u64 {
-        tier.pick(40_000, 1_000_000)
+        tier.pick(800_000, 10_000_000)
     }
     fn strategy(&self, tier: Tier) -> BoxedStrategy<Case> {
         let prefix = (text_strategy(4), proptest::collection::vec(dspec_(), 1..=4))
